@@ -3,6 +3,8 @@ tree) for real functions outside both verifiers' reach. A pass is reported under
 coverage.bounded_parts and NEVER counted as proved; a failure is a concrete failing input on the
 real code and is reported as a violation with the test as its replay."""
 import fcntl
+import hashlib
+import json
 import os
 import re
 import subprocess
@@ -13,6 +15,10 @@ BUILD = os.path.join(VERIF, 'build')
 
 # test id -> (test file, test fn, real functions covered, bound)
 TESTS = {
+    'client_routing_bounded': dict(file='client_routing_bounded', fn='client_routing_exhaustive_small',
+                                   functions=['tarpc/src/client.rs::RequestDispatch (through the public API)', 'tarpc/src/client/in_flight_requests.rs::complete_request (through the public API)'],
+                                   bound='3 concurrent calls; all 6 answer orders; one unsolicited id derived from a live id by 6 boundary transformations at every position; optional duplicate (660 runs)',
+                                   why='replay search: source of concrete failing inputs when the deductive check of the client table is undecided (e.g. a changed data representation) or fails'),
     'retry_bounded': dict(file='retry_bounded', fn='retry_exhaustive_up_to_max_attempts',
                           functions=['tarpc/src/client/stub/retry.rs::Retry::call'],
                           bound='exhaustive over all policy-decision and ok/err result sequences of up to 5 attempts',
@@ -29,8 +35,18 @@ def run_tests(ids, timeout=1500):
     lock = open(os.path.join(BUILD, '.lock-native'), 'w')
     fcntl.flock(lock, fcntl.LOCK_EX)
     try:
+        from . import kani_run
+        th = kani_run._tree_hash()
         for tid in ids:
             t = TESTS[tid]
+            src = open(os.path.join(VERIF, 'native', 'tests', t['file'] + '.rs')).read()
+            cpath = os.path.join(BUILD, 'cache', 'native-%s-%s.json' % (tid, hashlib.sha256((th + src).encode()).hexdigest()[:24]))
+            os.makedirs(os.path.dirname(cpath), exist_ok=True)
+            if os.path.exists(cpath):
+                rec = json.load(open(cpath))
+                rec['cache_hit'] = True
+                out.append(rec)
+                continue
             cmd = ['cargo', 'test', '--offline', '--target-dir', os.path.join(BUILD, 'native-target'), '--test', t['file'], t['fn'], '--', '--nocapture', '--exact']
             env = dict(os.environ, CARGO_NET_OFFLINE='true')
             # keep the lock file in sync with /repo's so that resolution stays offline
@@ -50,8 +66,10 @@ def run_tests(ids, timeout=1500):
             failed = bool(re.search(r'test result: FAILED', txt))
             if not passed and not failed:
                 raise NativeUndecided('native stand-in %s did not build or run: %s' % (tid, txt[-600:].replace('\n', ' | ')))
-            out.append(dict(id=tid, cmd='(cd /verif/native && %s)' % ' '.join(cmd), passed=passed, evaluations=int(m.group(1)) if m else 0,
-                            functions=t['functions'], bound=t['bound'], why=t['why'], wall_s=time.time() - t0, output_tail=txt[-2500:]))
+            rec = dict(id=tid, cmd='(cd /verif/native && %s)' % ' '.join(cmd), passed=passed, evaluations=int(m.group(1)) if m else 0,
+                       functions=t['functions'], bound=t['bound'], why=t['why'], wall_s=time.time() - t0, output_tail=txt[-2500:])
+            json.dump(rec, open(cpath, 'w'))
+            out.append(rec)
         return out
     finally:
         fcntl.flock(lock, fcntl.LOCK_UN)
